@@ -3,7 +3,7 @@
    coq/Model/Ellipse.v.  Statements only (proofs: Proofs/SrcCircle.v).
    Hypotheses: the diameter / size is a value of i32 (the code casts it to i32 in `Point + Size`), the squared distance
    of Circle::contains is a value of u32 (it is computed in i32 and cast), the doubled probe offset of Ellipse::contains
-   is a value of i32 (it is cast to i64).  All are implied by the probe_ok / circle_mok hypotheses of the C05 theorems. *)
+   is a value of i32 (it is cast to i64).  All are implied by the src_probe_ok / circle_mok hypotheses of the C05 theorems. *)
 From EG Require Import Base.Prelude Base.Casts Model.Geometry Model.Style Model.Circle Model.Ellipse.
 From EG Require Import Gen.SrcGeometry Gen.SrcCircle Proofs.SrcGeometry Proofs.SrcCircle.
 
